@@ -72,13 +72,16 @@ CLAIMED["C12"] = dict(
 
 CLAIMED["C11"] = dict(
     cat="other", ref="DESIGN.md §3 C11",
-    text="Decides gating, coverage and dispatch of the bulk kernels, not the semantics of individual SIMD instructions: "
+    text="Decides gating, coverage, dispatch and the data-flow shape of the bulk kernels: "
          "R1 every call of a #[target_feature] kernel or core::arch intrinsic happens where the features are available "
          "(own attributes or a dominating successful runtime detection, closed under rustc's implication table); "
          "R2 for all 64 residues of len mod 64 every kernel writes each byte of [0,len) exactly once with stride = access width "
-         "and reads its second operand at the same positions; R4 every dispatcher falls back to a portable kernel and passes its own operands.",
-    note="x86_64 instantiation only. The per-instruction data-flow templates (R3) are a separate rule; until it is armed the value computed "
-         "by a vector instruction sequence is not decided.",
+         "and reads its second operand at the same positions; R3 the value stored by every vector loop, word loop and scalar tail matches the "
+         "operation's template in a width-independent lane algebra (xor / nibble-table PSHUFB product with the right table for each nibble and "
+         "the scalar's row / masked broadcast for the packed-bit kernels incl. their shuffle and bit-select constants); "
+         "R4 every dispatcher falls back to a portable kernel and passes its own operands.",
+    note="x86_64 instantiation only (NEON / 32-bit x86 cannot be type-checked here). The meaning of the ~15 intrinsics used is encoded in "
+         "the templates (read from Intel's definitions), not re-derived; the tables are proved by C10-R1.",
     technique="static analysis: interprocedural feature-availability dataflow + abstract interpretation (exact affine offsets, residue split) over rustc MIR")
 
 CLAIMED["C01"] = dict(
